@@ -128,7 +128,9 @@ func swapCases(r *sim.Rng, n *sim.FNode, count int, w *sim.CaseWriter) {
 		for i := 0; i < k; i++ {
 			amt := amount(r)
 			if y < 1<<40 {
-				amt = amt % (4 * (x/4 + 1))
+				if m := 4 * (x/4 + 1); m != 0 {
+					amt = amt % m
+				}
 			}
 			req := uint64(0)
 			switch r.Intn(4) {
@@ -370,6 +372,7 @@ func main() {
 	nSwap := flag.Int("swap", 200, "swap batch cases")
 	nWd := flag.Int("withdraw", 200, "withdraw cases")
 	nDep := flag.Int("deposit", 200, "deposit cases")
+	nMerge := flag.Int("merge", 40, "same-block batch merge cases (IncludeSameBlockDex)")
 	outDir := flag.String("outdir", ".", "output directory")
 	_ = flag.String("replay", "", "replay file (cases regenerate deterministically from the seed)")
 	flag.Parse()
@@ -399,5 +402,93 @@ func main() {
 	w4 := &sim.CaseWriter{OutDir: *outDir, Name: "c20dep", Imports: imp, CaseType: "dep_case", MFun: "dep_mismatches", VFun: "dep_violations", PerShard: 100}
 	depositCases(r.Fork(), n, *nDep, w4)
 	w4.Close(st)
+	w5 := &sim.CaseWriter{OutDir: *outDir, Name: "c20merge", Imports: "From V Require Import U64 Extracted DexBatch.", CaseType: "mg_case", MFun: "mg_mismatches", VFun: "mg_violations", PerShard: 10}
+	mergeCases(r.Fork(), n, *nMerge, w5)
+	w5.Close(st)
 	fmt.Printf("c20: %d cases (%d distinct non-trivial) outcomes %v\n", st.Cases, st.Distinct, st.Outcomes)
+}
+
+// mergeCases: the real IncludeSameBlockDex on a locked batch (locked at this height) and a next batch whose list lengths sit
+// around the per-batch caps (nothing to move, everything fits, one / two / three lists truncated by their cap, locked batch
+// already at or above a cap); items carry consecutive ids so that a lost, duplicated or reordered item changes the sums
+func mergeCases(r *sim.Rng, n *sim.FNode, count int, cw *sim.CaseWriter) {
+	n.Enter()
+	addr := sim.BLSKey(0).Addr
+	pick := func(cap int) (int, int) {
+		switch r.Intn(7) {
+		case 0:
+			return r.Intn(4), 0
+		case 1:
+			return r.Intn(50), r.Intn(50)
+		case 2:
+			return cap - 1 - r.Intn(3), 1 + r.Intn(6) // truncated by the cap
+		case 3:
+			return cap - r.Intn(40), r.Intn(40) // around the boundary
+		case 4:
+			return cap, 1 + r.Intn(5) // already full
+		case 5:
+			return cap + 1 + r.Intn(3), r.Intn(5) // above the cap (must not move, must not underflow)
+		default:
+			return 0, r.Intn(30)
+		}
+	}
+	for i := 0; i < count; i++ {
+		chain := uint64(2)
+		lo, no := pick(lib.MaxOrdersPerDexBatch)
+		ld, nd := pick(lib.MaxDepositsPerDexBatch)
+		lw, nw := pick(lib.MaxWithdrawsPerDexBatch)
+		mk := func(no, nd, nw int, o0, d0, w0 uint64) *lib.DexBatch {
+			b := &lib.DexBatch{Committee: chain}
+			for j := 0; j < no; j++ {
+				b.Orders = append(b.Orders, &lib.DexLimitOrder{AmountForSale: o0 + uint64(j), RequestedAmount: 1, Address: addr})
+			}
+			for j := 0; j < nd; j++ {
+				b.Deposits = append(b.Deposits, &lib.DexLiquidityDeposit{Amount: d0 + uint64(j), Address: addr})
+			}
+			for j := 0; j < nw; j++ {
+				b.Withdrawals = append(b.Withdrawals, &lib.DexLiquidityWithdraw{Percent: w0 + uint64(j), Address: addr})
+			}
+			return b
+		}
+		locked := mk(lo, ld, lw, 1, 100001, 200001)
+		locked.LockedHeight = n.FSM.Height()
+		next := mk(no, nd, nw, 300001, 400001, 500001)
+		if err := n.FSM.SetDexBatch(fsm.KeyForLockedBatch(chain), locked); err != nil {
+			panic(err)
+		}
+		if err := n.FSM.SetDexBatch(fsm.KeyForNextBatch(chain), next); err != nil {
+			panic(err)
+		}
+		if err := n.FSM.IncludeSameBlockDex(); err != nil {
+			panic(err)
+		}
+		l2, e1 := n.FSM.GetDexBatch(chain, true)
+		n2, e2 := n.FSM.GetDexBatch(chain, false)
+		if e1 != nil || e2 != nil {
+			panic(fmt.Sprint(e1, e2))
+		}
+		sum := func(b *lib.DexBatch) (s uint64) {
+			for _, o := range b.Orders {
+				s += o.AmountForSale
+			}
+			for _, d := range b.Deposits {
+				s += d.Amount
+			}
+			for _, w := range b.Withdrawals {
+				s += w.Percent
+			}
+			return
+		}
+		t3 := func(b *lib.DexBatch) string {
+			return fmt.Sprintf("(%s, %s, %s)", sim.CoqN(uint64(len(b.Orders))), sim.CoqN(uint64(len(b.Deposits))), sim.CoqN(uint64(len(b.Withdrawals))))
+		}
+		lit := fmt.Sprintf("mkMg %s %s %s %s %s %s %s %s %s %s", sim.CoqN(uint64(lo)), sim.CoqN(uint64(ld)), sim.CoqN(uint64(lw)),
+			sim.CoqN(uint64(no)), sim.CoqN(uint64(nd)), sim.CoqN(uint64(nw)), t3(l2), t3(n2), sim.CoqN(sum(l2)), sim.CoqN(sum(n2)))
+		cw.Add(lit, map[string]any{"kind": "same-block-merge", "locked": []int{lo, ld, lw}, "next": []int{no, nd, nw}})
+		st.Cases++
+		st.Distinct++
+		st.Outcomes["merge"]++
+	}
+	_ = n.FSM.Delete(fsm.KeyForLockedBatch(2))
+	_ = n.FSM.Delete(fsm.KeyForNextBatch(2))
 }
